@@ -148,8 +148,27 @@ func buildWorld(sc *Scenario) (*world, error) {
 		return nil, harnessf("bad start %q: %v", sc.Start, err)
 	}
 	w.startAt = start.UTC()
+	usedAsPath := map[int]bool{}
+	for _, t := range sc.Tasks {
+		for _, o := range t.Ops {
+			if o.Kind != "parse" && o.Kind != "scan" && o.Kind != "unmarshal" {
+				usedAsPath[o.Path] = true
+			}
+		}
+	}
 	for i, txt := range sc.Paths {
 		tickProgress()
+		if ColdStart && !usedAsPath[i] {
+			// Cold start: a text that is only ever parsed by the tasks
+			// themselves is not parsed here, so that the parser's first
+			// use can be theirs.
+			w.paths = append(w.paths, nil)
+			w.anc = append(w.anc, nil)
+			w.astSize = append(w.astSize, 0)
+			w.wild = append(w.wild, false)
+			w.pathSnap = append(w.pathSnap, "")
+			continue
+		}
 		p, err := safeParse(txt)
 		if err != nil {
 			// Unparseable texts are legal only for "parse" ops.
@@ -169,11 +188,10 @@ func buildWorld(sc *Scenario) (*world, error) {
 		// The snapshot is taken from a second parse of the same text, so
 		// that the shared Path is never used before the concurrent phase
 		// (a lazily filled cache in the AST must meet its first use there).
-		twin, err := path.Parse(txt)
-		if err != nil {
-			return nil, harnessf("path %q parsed once but not twice: %v", txt, err)
-		}
-		w.pathSnap = append(w.pathSnap, pathSnapshot(twin))
+		// (It is also taken only when the scenario is over - see
+		// checkImmutable -: printing a twin now would warm process-wide
+		// memos of printed strings before the tasks print concurrently.)
+		w.pathSnap = append(w.pathSnap, "")
 	}
 	for i, d := range sc.Docs {
 		v, err := decodeJSON(d)
@@ -1108,6 +1126,11 @@ func nativeVars(m map[string]any) {
 	for _, k := range sortedKeys(m) {
 		n++
 		switch v := m[k].(type) {
+		case string:
+			// A caller-built datetime value (constructed, not parsed by the library).
+			if tt, err := time.Parse(time.RFC3339, v); err == nil {
+				m[k] = types.NewTimestampTZ(context.Background(), tt)
+			}
 		case float64:
 			if v == float64(int(v)) {
 				if n%2 == 0 {
